@@ -3,6 +3,7 @@ package heterosim
 import (
 	"bytes"
 	"crypto/sha256"
+	"encoding/hex"
 	"fmt"
 	"math"
 	"math/big"
@@ -12,6 +13,8 @@ import (
 	"go.dedis.ch/kyber/v4"
 	"go.dedis.ch/kyber/v4/group/edwards25519"
 	"go.dedis.ch/kyber/v4/group/edwards25519vartime"
+	"go.dedis.ch/kyber/v4/pairing"
+	"go.dedis.ch/kyber/v4/pairing/bn254"
 	"go.dedis.ch/kyber/v4/pairing/bn256"
 
 	"verif/sim/core"
@@ -76,10 +79,14 @@ func runProgram(t *core.Tape, info *core.RunInfo) *core.Violation {
 		// diffs. The pool starts from points decoded from encodings whose coordinates have
 		// extreme limbs in Montgomery form (carry chains of the limb arithmetic).
 		single = true
-		su := bn256.NewSuite()
+		var su pairing.Suite = bn256.NewSuite()
+		curve := "bn256"
+		if t.Bool("prog.bn254", 500) {
+			su, curve = bn254.NewSuite(), "bn254"
+		}
 		which := t.Intn("prog.family", 3)
-		family = "bn256" + []string{"-g1", "-g2", "-gt"}[which]
-		r := &replica{name: "bn256"}
+		family = curve + []string{"-g1", "-g2", "-gt"}[which]
+		r := &replica{name: curve}
 		switch which {
 		case 0:
 			r.g, r.base = su.G1(), su.G1().Point().Base()
@@ -134,13 +141,42 @@ func runProgram(t *core.Tape, info *core.RunInfo) *core.Violation {
 			r.pts = append(r.pts, r.point().Mul(r.scs[i%nS], r.base))
 		}
 	}
+	if strings.HasPrefix(family, "ed25519") {
+		// pure small-order points (orders 1, 2, 4, 8), decoded from their canonical encodings: the
+		// implementations must agree on them too (seed C18g: the projective Mul skipped a doubling
+		// whenever X was 0, which also matches the order-2 point)
+		for i := 0; i < nP; i++ {
+			if !t.Bool("prog.small", 300) {
+				continue
+			}
+			enc := smallOrderEd[t.Intn("prog.small", len(smallOrderEd))]
+			var dec []kyber.Point
+			ok := true
+			for _, r := range reps {
+				p := r.point()
+				if err := p.UnmarshalBinary(enc); err != nil {
+					ok = false
+					break
+				}
+				dec = append(dec, p)
+			}
+			if !ok {
+				info.Probe("small-order-encoding-refused-by-an-implementation")
+				continue
+			}
+			for k, r := range reps {
+				r.pts[i] = dec[k]
+			}
+			info.Faults["small-order-operand"]++
+		}
+	}
 	if single {
 		// replace some pool points by decoded edge-limb points
 		for i := 0; i < nP; i++ {
 			if !t.Bool("prog.edge", 600) {
 				continue
 			}
-			if enc := edgeEncodingBN256(t, family); enc != nil {
+			if enc := edgeEncodingBN(t, family); enc != nil {
 				p := reps[0].point()
 				if err := p.UnmarshalBinary(enc); err == nil {
 					reps[0].pts[i] = p
@@ -302,14 +338,13 @@ func runProgram(t *core.Tape, info *core.RunInfo) *core.Violation {
 
 var (
 	pBN256, _ = new(big.Int).SetString("65000549695646603732796438742359905742825358107623003571877145026864184071783", 10)
-	rInvBN256 = new(big.Int).ModInverse(new(big.Int).Lsh(big.NewInt(1), 256), pBN256)
+	pBN254, _ = new(big.Int).SetString("21888242871839275222246405745257275088696311157297823662689037894645226208583", 10)
 	edgeLimbs = []uint64{0, 1, math.MaxUint64, math.MaxUint64 - 1, 1 << 63, 1<<63 - 1}
-	sqrtExpBN = new(big.Int).Rsh(new(big.Int).Add(pBN256, big.NewInt(1)), 2) // p = 3 mod 4
 )
 
 // edgeField returns a field element (canonical, big-endian, 32 bytes) whose MONTGOMERY form
 // has the tape-drawn limbs (extreme values with high probability).
-func edgeField(t *core.Tape) []byte {
+func edgeField(t *core.Tape, p *big.Int) []byte {
 	m := new(big.Int)
 	for i := 3; i >= 0; i-- {
 		var l uint64
@@ -320,33 +355,53 @@ func edgeField(t *core.Tape) []byte {
 		}
 		m.Lsh(m, 64).Or(m, new(big.Int).SetUint64(l))
 	}
-	m.Mod(m, pBN256)
-	v := new(big.Int).Mul(m, rInvBN256)
-	v.Mod(v, pBN256)
+	m.Mod(m, p)
+	v := new(big.Int).Mul(m, new(big.Int).ModInverse(new(big.Int).Lsh(big.NewInt(1), 256), p))
+	v.Mod(v, p)
 	return v.FillBytes(make([]byte, 32))
 }
 
-// edgeEncodingBN256 builds an encoding of a G1 point (x crafted, y from the curve equation) or of
-// a GT element (twelve crafted coefficients); nil when no point was found (G2 is left alone).
-func edgeEncodingBN256(t *core.Tape, family string) []byte {
-	switch family {
-	case "bn256-gt":
+// edgeEncodingBN builds an encoding of a G1 point (x crafted, y from the curve equation y^2 = x^3 + 3;
+// both primes are 3 mod 4) or of a GT element (twelve crafted coefficients) of bn256 or bn254; nil when
+// no point was found (G2 is left alone).
+func edgeEncodingBN(t *core.Tape, family string) []byte {
+	p := pBN256
+	if strings.HasPrefix(family, "bn254") {
+		p = pBN254
+	}
+	switch {
+	case strings.HasSuffix(family, "-gt"):
 		var b []byte
 		for i := 0; i < 12; i++ {
-			b = append(b, edgeField(t)...)
+			b = append(b, edgeField(t, p)...)
 		}
 		return b
-	case "bn256-g1":
+	case strings.HasSuffix(family, "-g1"):
+		e := new(big.Int).Rsh(new(big.Int).Add(p, big.NewInt(1)), 2)
 		for try := 0; try < 6; try++ {
-			xb := edgeField(t)
+			xb := edgeField(t, p)
 			x := new(big.Int).SetBytes(xb)
-			rhs := new(big.Int).Exp(x, big.NewInt(3), pBN256)
-			rhs.Add(rhs, big.NewInt(3)).Mod(rhs, pBN256)
-			y := new(big.Int).Exp(rhs, sqrtExpBN, pBN256)
-			if new(big.Int).Exp(y, big.NewInt(2), pBN256).Cmp(rhs) == 0 {
+			rhs := new(big.Int).Exp(x, big.NewInt(3), p)
+			rhs.Add(rhs, big.NewInt(3)).Mod(rhs, p)
+			y := new(big.Int).Exp(rhs, e, p)
+			if new(big.Int).Exp(y, big.NewInt(2), p).Cmp(rhs) == 0 {
 				return append(xb, y.FillBytes(make([]byte, 32))...)
 			}
 		}
 	}
 	return nil
+}
+
+func hx(s string) []byte { b, _ := hex.DecodeString(s); return b }
+
+// canonical encodings of the eight points of small order on Ed25519
+var smallOrderEd = [][]byte{
+	hx("0100000000000000000000000000000000000000000000000000000000000000"), // identity
+	hx("ec" + strings.Repeat("ff", 30) + "7f"),                             // order 2
+	hx("0000000000000000000000000000000000000000000000000000000000000000"), // order 4
+	hx("0000000000000000000000000000000000000000000000000000000000000080"), // order 4
+	hx("26e8958fc2b227b045c3f489f2ef98f0d5dfac05d3c63339b13802886d53fc05"), // order 8
+	hx("26e8958fc2b227b045c3f489f2ef98f0d5dfac05d3c63339b13802886d53fc85"), // order 8
+	hx("c7176a703d4dd84fba3c0b760d10670f2a2053fa2c39ccc64ec7fd7792ac037a"), // order 8
+	hx("c7176a703d4dd84fba3c0b760d10670f2a2053fa2c39ccc64ec7fd7792ac03fa"), // order 8
 }
